@@ -18,7 +18,7 @@ Definition leaves (p : path) (r : request) : bool :=
   | RDelete q _ => negb (is_prefix q p)              (* not a DELETE of p or of a collection above it *)
   | RMove q _ to _ => negb (path_eqb q p) && negb (path_eqb to p)
   | RMkcol q _ | RMkcalendar q _ => negb (path_eqb q p)
-  | RProppatch _ _ | RGet _ | RPropfind _ _ | RMultiget _ _ _ => true
+  | RProppatch _ _ | RGet _ | RPropfind _ _ | RMultiget _ _ _ | RQuery _ _ _ => true
   end.
 
 Lemma item_at_lookups : forall s p o,
@@ -190,7 +190,7 @@ Section Stable.
     item_at s p o -> leaves p r = true -> item_at (fst (handle cfg pol user s r)) p o.
   Proof.
     intros user s r p o Hit Hl. pose proof (item_at_home pol s user p o Hit) as Hh. unfold handle.
-    destruct r as [q ct b im inm|q im|q dok to ow|q x|q x|q x|q|q d|q cal hs]; cbn [leaves] in Hl; cbn [fst]; try exact Hh.
+    destruct r as [q ct b im inm|q im|q dok to ow|q x|q x|q x|q|q d|q cal hs|q k flt]; cbn [leaves] in Hl; cbn [fst]; try exact Hh.
     - apply put_stable; [exact Hh|apply negb_true_iff; exact Hl].
     - apply delete_stable; [exact Hh|apply negb_true_iff; exact Hl].
     - apply andb_true_iff in Hl. destruct Hl as [H1 H2]. apply negb_true_iff in H1, H2.
